@@ -189,6 +189,8 @@ std::string deckText(const KwIR& k) {
         } else if (k.name == "WLIST") {
             o << q(r[0]) << " " << q(r[1]);
             for (size_t i = 2; i < r.size(); ++i) o << " " << q(r[i]);
+        } else if (k.name == "COMPORD") {
+            o << q(r[0]) << " " << r[1];
         } else if (k.name == "COMPLUMP") {
             o << q(r[0]) << " " << r[1] << " " << r[2] << " " << r[3] << " " << r[4] << " " << r[5];
         } else if (k.name == "WPIMULT") {
@@ -280,6 +282,8 @@ struct Gen {
     bool anyHeadChanged = false;          // then COMPDAT never defaults I,J (outside the model)
     std::set<std::string> connected;      // wells a COMPDAT record named explicitly (they very likely have connections)
     std::vector<std::string> lists;       // well lists created so far
+    bool orders = true;                   // emit COMPORD (also in later report steps, also for wells created earlier)
+    std::map<std::string, std::set<std::pair<int, int>>> cols;   // columns a COMPDAT may have connected each well in (over-approximation)
     int y = 2015, m = 1, d = 1;
     std::map<std::string, long>* stats = nullptr;
 
@@ -354,6 +358,42 @@ struct Gen {
             k.recs.push_back({ allowQ ? wellPat(true) : wellPat(), dflt ? "0" : std::to_string(r.range(1, 6)), dflt ? "0" : std::to_string(r.range(1, 6)),
                                std::to_string(k1), std::to_string(k2), r.coin(3, 4) ? "OPEN" : (r.coin(3, 4) ? "SHUT" : "AUTO") });
             if (!allowQ) connected.insert(k.recs.back()[0]);
+            noteCols(k.recs.back()[0], std::atoi(k.recs.back()[1].c_str()), std::atoi(k.recs.back()[2].c_str()));
+        }
+        return k;
+    }
+    // columns a COMPDAT record may connect: exact for plain names, every well the pattern can reach otherwise
+    void noteCols(const std::string& pat, int i, int j) {
+        for (auto& w : wells) {
+            const bool plain = std::find(wells.begin(), wells.end(), pat) != wells.end();
+            bool hit = plain ? w == pat : true;
+            if (!plain && pat == "P*") hit = w[0] == 'P';
+            if (!plain && pat == "I*") hit = w[0] == 'I';
+            if (!hit) continue;
+            if (i == 0 || j == 0) { auto h = heads.count(w) ? heads[w] : std::make_pair(1, 1); cols[w].insert({ i == 0 ? h.first : i, j == 0 ? h.second : j }); }
+            else cols[w].insert({ i, j });
+        }
+    }
+    // COMPDAT that re-specifies every connection of one well as SHUT (its handler reports no "affected well")
+    KwIR plug() {
+        KwIR k{ "COMPDAT", {}, "" };
+        std::vector<std::string> cand; for (auto& w : wells) if (w[0] == actionRole) cand.push_back(w);
+        if (cand.empty() || r.coin(1, 4)) cand = wells;
+        const std::string w = cand.empty() ? std::string("P1") : r.pick(cand);
+        auto cs = cols[w];
+        if (cs.empty()) cs.insert(heads.count(w) ? heads[w] : std::make_pair(1, 1));
+        for (auto& c : cs) k.recs.push_back({ w, std::to_string(c.first), std::to_string(c.second), "1", "4", "SHUT" });
+        return k;
+    }
+    KwIR compord() {
+        static const std::vector<std::string> os = { "INPUT", "DEPTH", "TRACK", "INPUT", "DEPTH" };
+        KwIR k{ "COMPORD", {}, "" };
+        int n = r.range(1, 2);
+        for (int i = 0; i < n; ++i) {
+            int c = r.range(0, 6);
+            std::string pat = c == 0 ? "*" : c == 1 ? "P*" : c == 2 ? "I*" : std::string(r.coin(2, 3) ? "P" : "I") + std::to_string(r.range(1, 5));
+            if (c >= 5 && !wells.empty()) pat = r.pick(wells);
+            k.recs.push_back({ pat, r.pick(os) });
         }
         return k;
     }
@@ -508,6 +548,15 @@ struct Gen {
     KwIR wpimult(bool allowQ = false) {
         static const std::vector<std::string> fs = { "0.5", "2", "1.5", "1", "0.75" };
         KwIR k{ "WPIMULT", {}, "" };
+        if (rich2 && !wells.empty() && r.coin(1, allowQ ? 3 : 6)) {
+            // two records with all connection items defaulted that select the same well: only the last one counts
+            const std::string w = r.pick(wells);
+            const std::string wide = r.coin(1, 3) ? w : (r.coin() ? std::string(1, w[0]) + "*" : std::string("*"));
+            const std::string f1 = r.pick(fs), f2 = r.pick(fs);
+            if (r.coin(3, 4)) { k.recs.push_back({ wide, f1, "*", "*", "*", "*", "*" }); k.recs.push_back({ w, f2, "*", "*", "*", "*", "*" }); }
+            else { k.recs.push_back({ w, f1, "*", "*", "*", "*", "*" }); k.recs.push_back({ wide, f2, "*", "*", "*", "*", "*" }); }
+            return k;
+        }
         int n = r.range(1, 2);
         for (int i = 0; i < n; ++i) {
             std::vector<std::string> f = { wellPat(allowQ), r.pick(fs), "*", "*", "*", "*", "*" };
@@ -579,6 +628,7 @@ struct Gen {
     char actionRole = 'P';
     KwIR ordinary(bool inAction = false) {
         for (;;) {
+            if (!inAction && orders && rich2 && r.coin(1, 11)) return compord();
             if (rich2 && r.coin(2, 5)) {
                 int c = r.range(0, inAction ? 8 : 13);
                 switch (c) {
@@ -622,6 +672,14 @@ struct Gen {
         std::string name = std::string("ACT") + actionRole + std::to_string(r.range(1, 2));
         out.push_back(KwIR{ "ACTIONX", { { name } }, "" });
         int n = r.range(1, 3);
+        if (rich2 && !wells.empty() && r.coin(1, 4)) {
+            // a body of connection keywords only (COMPDAT / COMPLUMP / WPIMULT: no handler reports an affected well), which
+            // leaves every connection of one well SHUT: the end-of-step shut-in is then the action's only effect on the well status
+            if (r.coin(1, 3)) out.push_back(r.coin() ? complump(false) : wpimult(false));
+            out.push_back(plug());
+            if (r.coin(1, 3)) out.push_back(r.coin() ? complump(false) : wpimult(false));
+            n = 0;
+        }
         for (int i = 0; i < n; ++i) {
             if (extras && r.coin(1, 5)) {
                 const std::string w = wells.empty() ? "P1" : r.pick(wells);
@@ -638,16 +696,29 @@ struct Gen {
     // keywords of one report step (without the closing time keyword)
     void stepBody(std::vector<KwIR>& out, bool first) {
         if (first) {
+            const int ordPos = (orders && rich2 && r.coin(3, 5)) ? r.range(0, 3) : -1;    // block.get("COMPORD") finds it wherever it stands in the block
+            if (ordPos == 0) out.push_back(compord());
             out.push_back(welspecs());
+            if (ordPos == 1) out.push_back(compord());
             if (r.coin(4, 5)) out.push_back(welspecs());
+            if (ordPos == 2) out.push_back(compord());
             out.push_back(compdat());
             out.push_back(compdat());
+            if (ordPos == 3) out.push_back(compord());
             if (r.coin(4, 5)) out.push_back(wconprod());
             if (r.coin(2, 3)) out.push_back(wconinje());
         }
         int n = r.range(0, 4);
         for (int i = 0; i < n; ++i) {
             if (actions && r.coin(1, 4)) actionBlock(out);
+            else if (!first && orders && rich2 && r.coin(1, 8)) {
+                // wells created in a later report step under that step's own COMPORD (before or after the WELSPECS)
+                const bool before = r.coin();
+                if (before) out.push_back(compord());
+                out.push_back(welspecs());
+                if (!before) out.push_back(compord());
+                if (r.coin(2, 3)) out.push_back(compdat());
+            }
             else out.push_back(ordinary());
         }
     }
@@ -711,7 +782,10 @@ const char* workoverName(WellEconProductionLimits::EconWorkover w) {
 // candidate well-list names the generator uses (WListManager has no iteration interface)
 const std::vector<std::string> LISTNAMES = { "*L1", "*L2", "*L3", "*M1" };
 
-std::string dumpState(const Schedule& sched, size_t k) {
+// `moved`: wells whose head a later WELSPECS changed (correspondence runs: their connection sequence is outside the model and
+// printed sorted by cell, like that of DEPTH-ordered wells with more than 16 connections, where std::sort is not the stable
+// insertion the model uses); nullptr (property modes, real code vs real code): always the well's own sequence
+std::string dumpState(const Schedule& sched, size_t k, const std::set<std::string>* moved = nullptr) {
     std::vector<std::string> parts;
     const auto& st = sched[k];
     for (const auto& wn : sched.wellNames(k)) {
@@ -735,9 +809,11 @@ std::string dumpState(const Schedule& sched, size_t k) {
             const auto& e = w.getEconLimits();
             o << "E(" << vh::hexF64(e.minOilRate()) << "," << vh::hexF64(e.maxWaterCut()) << "," << workoverName(e.workover()) << "),";
         }
+        o << Connection::Order2String(w.getConnections().ordering()) << ",";
         std::vector<std::pair<std::array<int, 5>, std::string>> cs;
         for (const auto& c : w.getConnections()) cs.push_back({ { c.getI(), c.getJ(), c.getK(), static_cast<int>(c.state()), c.complnum() }, vh::hexF64(c.wpimult()) });
-        std::sort(cs.begin(), cs.end());
+        const bool seq = !moved || (!moved->count(wn) && !(w.getConnections().ordering() == Connection::Order::DEPTH && cs.size() > 16));
+        if (!seq) std::sort(cs.begin(), cs.end());
         for (size_t i = 0; i < cs.size(); ++i) o << (i ? "/" : "") << cs[i].first[0] << "." << cs[i].first[1] << "." << cs[i].first[2] << "." << cs[i].first[3] << "." << cs[i].first[4] << "." << cs[i].second;
         parts.push_back(o.str());
     }
@@ -824,6 +900,13 @@ std::string dumpState(const Schedule& sched, size_t k) {
         parts.push_back(o.str());
     }
     parts.push_back("H:" + std::to_string(static_cast<int>(st.whistctl())));
+    {
+        std::ostringstream o; o << "X:";
+        bool f = true;
+        for (const auto& wn : sched.wellNames(k))
+            if (st.wellgroup_events().has(wn) && st.wellgroup_events().hasEvent(wn, ScheduleEvents::WELL_STATUS_CHANGE)) { o << (f ? "" : "/") << wn; f = false; }
+        parts.push_back(o.str());
+    }
     std::string s;
     for (size_t i = 0; i < parts.size(); ++i) s += (i ? ";" : "") + parts[i];
     return s;
@@ -871,6 +954,28 @@ std::string dumpBlocksR(const Deck& deck, std::time_t start, const ScheduleResta
     } catch (...) {
         return "err";
     }
+}
+
+// per report step: the wells whose head a WELSPECS record (outside ACTIONX blocks) has changed so far
+std::vector<std::set<std::string>> movedSets(const std::vector<KwIR>& ks) {
+    std::vector<std::set<std::string>> out;
+    std::map<std::string, std::pair<std::string, std::string>> head;
+    std::set<std::string> moved;
+    bool inAct = false;
+    for (const auto& k : ks) {
+        if (k.name == "ACTIONX") inAct = true;
+        if (k.name == "ENDACTIO") inAct = false;
+        if (k.name == "WELSPECS" && !inAct) for (const auto& r : k.recs) {
+            auto it = head.find(r[0]);
+            if (it == head.end()) { head[r[0]] = { r[2], r[3] }; continue; }
+            const std::string hi = r[2] == "*" ? it->second.first : r[2], hj = r[3] == "*" ? it->second.second : r[3];
+            if (hi != it->second.first || hj != it->second.second) moved.insert(r[0]);
+            it->second = { hi, hj };
+        }
+        for (int i = 0; i < k.nsteps(); ++i) out.push_back(moved);
+    }
+    out.push_back(moved);
+    return out;
 }
 
 std::string constsEnc() {
@@ -955,8 +1060,14 @@ int corr(uint64_t seed, const std::string& tier, const std::string& outdir) {
             }
         }
         for (auto& k : ks) sink.count("kw." + k.name);
+        const auto moved = movedSets(ks);
+        if (r.ok) for (size_t k = 0; k < n; ++k) for (const auto& wn : r.sched->wellNames(k)) {
+            const auto& w = r.sched->getWell(wn, k);
+            if (k == w.firstTimeStep()) sink.count(std::string("new-well-order.") + Connection::Order2String(w.getConnections().ordering()) + (k > 0 ? ".later-step" : ".step0"));
+            if (k + 1 == n && !moved[k].count(wn) && w.getConnections().size() > 1) sink.count(std::string("sequence-observed.") + Connection::Order2String(w.getConnections().ordering()));
+        }
         for (size_t k = 0; k < n; ++k)
-            sink.emit("sched.obs " + std::to_string(k) + " " + consts + " " + START_ENC + " " + enc, r.ok ? dumpState(*r.sched, k) : "err");
+            sink.emit("sched.obs " + std::to_string(k) + " " + consts + " " + START_ENC + " " + enc, r.ok ? dumpState(*r.sched, k, &moved[std::min(k, moved.size() - 1)]) : "err");
         if (r.ok) sink.emit("sched.obs " + std::to_string(n) + " " + consts + " " + START_ENC + " " + enc, "none");
     }
     sink.writeStats(outdir + "/stats.json");
@@ -1194,6 +1305,46 @@ std::string stripMarker(const std::string& x) {
     return x.substr(0, p) + (q2 == std::string::npos ? std::string() : x.substr(q2));
 }
 
+// the events of state k: report-step mask, then the mask of every well and group that has an entry; the action event marker
+// (ACTIONX_WELL_EVENT) is left out when `dropMarker` (the allowed difference at an action step)
+std::string dumpEvents(const Schedule& sched, size_t k, bool dropMarker) {
+    const auto& st = sched[k];
+    auto fin = [&](uint64_t m) { if (dropMarker) m &= ~static_cast<uint64_t>(ScheduleEvents::ACTIONX_WELL_EVENT); char b[32]; std::snprintf(b, sizeof b, "%llx", (unsigned long long) m); return std::string(b); };
+    uint64_t m = 0;
+    for (int b = 0; b < 40; ++b) if (st.events().hasEvent(uint64_t(1) << b)) m |= uint64_t(1) << b;
+    std::string o = "EV:" + fin(m);
+    auto one = [&](const std::string& n) {
+        if (!st.wellgroup_events().has(n)) { o += ";" + n + "=-"; return; }
+        uint64_t x = 0;
+        for (int b = 0; b < 40; ++b) if (st.wellgroup_events().hasEvent(n, uint64_t(1) << b)) x |= uint64_t(1) << b;
+        o += ";" + n + "=" + fin(x);
+    };
+    for (const auto& w : sched.wellNames(k)) one(w);
+    for (const auto& g : sched.groupNames(k)) one(g);
+    return o;
+}
+
+// "closing step n changed nothing": the keywords of block n (outside ACTIONX blocks) contain no WPIMULT record with all connection
+// items defaulted (nothing was deferred to the end of the step) and no well of state n has all its connections shut (the automatic
+// shut-in did not act).  Then the property's per-step exception is void and bodies with COMPDAT / WELOPEN on connections / WPIMULT
+// must equal their inlining in full.
+bool closingVoid(const std::vector<KwIR>& cur, size_t n, const Schedule& now) {
+    size_t step = 0; bool inAct = false;
+    for (const auto& k : cur) {
+        if (k.name == "ACTIONX") inAct = true;
+        if (k.name == "ENDACTIO") inAct = false;
+        if (step == n && !inAct && k.name == "WPIMULT") {
+            if (!k.raw.empty()) return false;
+            for (const auto& r : k.recs) { bool all = true; for (size_t i = 2; i < r.size(); ++i) if (r[i] != "*") all = false; if (all) return false; }
+        }
+        step += k.nsteps();
+        if (step > n) break;
+    }
+    if (n >= now.size()) return false;
+    for (const auto& w : now.wellNames(n)) if (now.getWell(w, n).getConnections().allConnectionsShut()) return false;
+    return true;
+}
+
 std::string encApps(const std::vector<App>& apps) {
     std::string s;
     for (size_t i = 0; i < apps.size(); ++i) {
@@ -1265,8 +1416,9 @@ int acorr(uint64_t seed, const std::string& tier, const std::string& outdir) {
         sink.count(ok ? "apply-ok" : "apply-err");
         const std::string enc = encSched(ks), ea = encApps(apps);
         size_t n = 1; for (auto& k : ks) n += k.nsteps();
+        const auto moved = movedSets(ks);
         for (size_t k = 0; k < n; ++k)
-            sink.emit("sched.apply " + std::to_string(k) + " " + consts + " " + START_ENC + " " + enc + " " + ea, ok ? dumpState(*r.sched, k) : "err");
+            sink.emit("sched.apply " + std::to_string(k) + " " + consts + " " + START_ENC + " " + enc + " " + ea, ok ? dumpState(*r.sched, k, &moved[std::min(k, moved.size() - 1)]) : "err");
     }
     sink.writeStats(outdir + "/stats.json");
     return 0;
@@ -1308,7 +1460,7 @@ int aprop(uint64_t seed, const std::string& tier, const std::string& outdir) {
         if (apps.empty()) { stats["no-action"]++; continue; }
         // inline: after each application the deck is rebuilt with the substituted body before the time keyword closing block n
         std::vector<KwIR> cur = ks;
-        bool inlineOk = true, perStep = false;
+        bool inlineOk = true, perStep = false, connFull = false;
         std::unique_ptr<Schedule> inl;
         for (auto& a : apps) {
             Real now = build(std::make_shared<Deck>(parseText(deckOf(cur))));
@@ -1331,7 +1483,14 @@ int aprop(uint64_t seed, const std::string& tier, const std::string& outdir) {
             for (const auto& w : now.sched->wellNames(a.n)) if (std::find(a.wells.begin(), a.wells.end(), w) != a.wells.end()) sorted.push_back(w);
             std::vector<KwIR> body(cur.begin() + bodyStart, cur.begin() + bodyEnd);
             // the property's per-step exception: keywords that shut/open connections (automatic shut-in) and WPIMULT (accumulation)
-            for (auto& b : body) if (b.name == "COMPDAT" || b.name == "WPIMULT" || b.name == "WELPI" || (b.name == "WELOPEN" && [&] { for (auto& r : b.recs) if (r.size() > 2) return true; return false; }())) perStep = true;
+            // see step n as already closed — which makes a difference only when closing step n did something; WELPI needs the
+            // simulator's run-time PI and is compared in the past only
+            const bool voidClose = closingVoid(cur, a.n, *now.sched);
+            for (auto& b : body) {
+                const bool connKw = b.name == "COMPDAT" || b.name == "WPIMULT" || (b.name == "WELOPEN" && [&] { for (auto& r : b.recs) if (r.size() > 2) return true; return false; }());
+                if (b.name == "WELPI" || (connKw && !voidClose)) perStep = true;
+                else if (connKw) { connFull = true; stats["conn-body-at-void-closing." + b.name]++; }
+            }
             auto sb = substBody(body, sorted);
             cur.insert(cur.begin() + insertAt, sb.begin(), sb.end());
         }
@@ -1339,7 +1498,7 @@ int aprop(uint64_t seed, const std::string& tier, const std::string& outdir) {
         const bool okA = applyReal(*applied.sched, apps);
         Real inlined = build(std::make_shared<Deck>(parseText(deckOf(cur))));
         stats[okA ? "apply-ok" : "apply-err"]++;
-        stats[perStep ? "with-connection-keywords" : "admissible-body"]++;
+        stats[perStep ? "with-connection-keywords" : (connFull ? "connection-body-compared-in-full" : "admissible-body")]++;
         for (auto& a : apps) for (size_t i = 0; i < ks.size(); ++i) if (ks[i].name == "ACTIONX" && ks[i].recs[0][0] == a.action)
             for (size_t j = i + 1; j < ks.size() && ks[j].name != "ENDACTIO"; ++j) stats["body." + ks[j].name]++;
         const std::string key = "act" + std::to_string(seed) + "." + std::to_string(it);
@@ -1369,6 +1528,12 @@ int aprop(uint64_t seed, const std::string& tier, const std::string& outdir) {
                 continue;
             }
             if (strip(da) != strip(db)) { log.fail(key, "state " + std::to_string(k) + " differs from inlined deck: " + firstDiff(strip(da), strip(db)) + " apps=" + encApps(apps)); break; }
+            if (!wellsGroupsEquivalent(A, B, k)) { log.fail(key, "state " + std::to_string(k) + ": wells/groups differ member-wise from the inlined deck (record equal) apps=" + encApps(apps)); break; }
+            {
+                const bool atApp = appSteps.count(k) > 0;
+                const std::string ea = dumpEvents(A, k, atApp), eb = dumpEvents(B, k, atApp);
+                if (ea != eb) { log.fail(key, "state " + std::to_string(k) + " events differ from inlined deck: " + firstDiff(ea, eb) + " apps=" + encApps(apps)); break; }
+            }
             log.ok();
         }
     }
